@@ -776,7 +776,8 @@ export class NeverRuntype extends BaseRuntype {
     return "never";
   }
   schema(_ctx: SchemaContext): JSONSchema7 {
-    return annotateSchema(this.metadata, { anyOf: [] });
+    // no instance is valid ("anyOf": [] is not allowed by the meta-schema)
+    return annotateSchema(this.metadata, { not: {} });
   }
   validate(_ctx: ValidateContext, _input: unknown): boolean {
     return false;
